@@ -112,7 +112,10 @@ JudgeCall(c, dev0, b, focus) ==
       F(p) == focus = p
       nw == Cardinality({k \in 1..Len(ops) : ops[k].k = "w"})
       R(v, bb) == [v |-> v, board |-> bb] IN
-  IF c.raised /\ F("C15") /\ cl.m = "connect" THEN
+  \* the port's close() complained while this call gave the port up (the device was already gone): C05 says nothing about what reboot /
+  \* bootload / disconnect report then; C04 still demands that the object ends up not connected
+  IF F("C05") /\ c.close_raised /\ cl.m \in {"reboot", "bootload", "disconnect"} THEN R("ok", b)
+  ELSE IF c.raised /\ F("C15") /\ cl.m = "connect" THEN
        R(IF Unsupported(dev) THEN "connect.unsupported_device_returns_false_with_error" ELSE "skip", b)
   ELSE IF c.raised /\ F("C05") /\ cl.m # "connect" THEN R("fault.public_method_raises", b)
   ELSE IF c.raised THEN R(IF F("C04") /\ c.dead_before /\ cl.m \notin Special THEN "latch.dead_call_raises" ELSE "skip", b)
